@@ -1233,7 +1233,9 @@ class Model:
             n.tname = name
         if keep:
             return n
-        tag = f"@{n.new_cid('a')}"
+        # every alias() is a new table identity, also when the same derivation is built twice
+        self._n_alias = getattr(self, "_n_alias", 0) + 1
+        tag = f"@a{self._n_alias}"
         ren = {c: (c if c.startswith("#") else c + tag) for c in st.cols}
         for k in [k for k, _, _ in st.order_keys]:
             ren[k] = k
